@@ -3,6 +3,8 @@ package db
 import (
 	"errors"
 	"fmt"
+	"os"
+	"path/filepath"
 	"strconv"
 	"strings"
 
@@ -27,7 +29,29 @@ var (
 	ErrVAANotFound = errors.New("requested VAA not found in store")
 )
 
+// removeEmptyLogFiles deletes zero-length value log (.vlog) and memtable write-ahead log (.mem) files from
+// the store directory. badger creates the next of each when the store is opened or a memtable is rotated; a
+// process that is killed between the creation of such a file and its initialisation leaves an empty file
+// behind, and badger then refuses to open the directory ("Create a new file"). An empty log holds no data,
+// so it is safe to drop it.
+func removeEmptyLogFiles(path string) {
+	entries, err := os.ReadDir(path)
+	if err != nil {
+		return
+	}
+	for _, e := range entries {
+		if e.IsDir() || !(strings.HasSuffix(e.Name(), ".vlog") || strings.HasSuffix(e.Name(), ".mem")) {
+			continue
+		}
+		if info, err := e.Info(); err == nil && info.Size() == 0 {
+			_ = os.Remove(filepath.Join(path, e.Name()))
+		}
+	}
+}
+
 func Open(path string) (*Database, error) {
+	removeEmptyLogFiles(path)
+
 	db, err := badger.Open(badger.DefaultOptions(path))
 	if err != nil {
 		return nil, fmt.Errorf("failed to open database: %w", err)
